@@ -20,6 +20,8 @@ LEVEL_TEXT = ("3e3 (quick) / 6e4 (thorough) generated configurations (R<=7, 1-3 
 LEVEL_NOTE = "trusted: vlib.models estimators; whether a filter's row itself is right is C04/C05's job; stddev with <2 positive weights and filter-induced aborts are C14's"
 ANCHOR_FILES = ["src/ropt/ensemble_evaluator/_function.py", "src/ropt/ensemble_evaluator/_ensemble_evaluator.py",
                 "src/ropt/plugins/function_estimator/default.py"]
+EXECUTION_COUNTERS = ["values_compared"]   # executions of the oracle inside the cases (reported as coverage.evaluations)
+CONTRACT_GROUPS = ['C01']   # icontract layer (vlib/contracts.py) active inside the workload and in the repository's own tests
 RULE = ("case = one generated configuration + point(s); non-trivial if functions were reported and at least one value was compared; "
         "distinct key = case index; monitor_counters.values_compared counts individual numbers checked")
 ASSUMPTIONS = ["the weight row reported in Realizations for a filtered function is the filter's output (checked for correctness by C04/C05)"]
